@@ -17,6 +17,8 @@
 //   pair <src> <dst>
 //   dumptree                           Z <zone> <parent|-> <netpoint> <default gateway|->  /  N <netpoint> <zone> <host|router|zone>
 //   dumplinks                          K <link> <latency>
+//   dumpbypass                         every zone's bypass_routes_ table:
+//                                      P <zone> <src> <dst> <sum of the links' latencies> <gw_src|-> <gw_dst|-> <links...>
 //   dumplocal                          every zone's own get_local_route for all ordered pairs of its vertices:
 //                                      L <zone> <src> <dst> <latency> <gw_src|-> <gw_dst|-> <links...>  or  LX <zone> <src> <dst> <msg>
 // Output, one line per pair:  R <src> <dst> <latency %.17g> <link names...>   or   X <src> <dst> <exception text>
@@ -151,6 +153,32 @@ static void dump_zone(simgrid::kernel::routing::NetZoneImpl* z, bool local)
   for (auto* c : z->get_children())
     dump_zone(c, local);
 }
+// bypass_routes_ sits in the class's leading (implicitly private) section, out of reach of "#define private public":
+// explicit instantiation may name private members
+using BypassTable = std::map<std::pair<const NetPoint*, const NetPoint*>, simgrid::kernel::routing::BypassRoute*>;
+template <typename Tag, typename Tag::type M> struct Rob {
+  friend typename Tag::type rob_get(Tag) { return M; }
+};
+struct BpTag {
+  typedef BypassTable simgrid::kernel::routing::NetZoneImpl::*type;
+  friend type rob_get(BpTag);
+};
+template struct Rob<BpTag, &simgrid::kernel::routing::NetZoneImpl::bypass_routes_>;
+static void dump_bypass(simgrid::kernel::routing::NetZoneImpl* z)
+{
+  for (auto const& [key, r] : z->*rob_get(BpTag())) {
+    double lat = 0; // what add_link_latency adds: the sum of the links' latencies, in list order
+    for (auto* l : r->links)
+      lat += eng->link_by_name(lname(l))->get_latency();
+    printf("P %s %s %s %.17g %s %s", z->get_cname(), key.first->get_cname(), key.second->get_cname(), lat,
+           r->gw_src ? r->gw_src->get_cname() : "-", r->gw_dst ? r->gw_dst->get_cname() : "-");
+    for (auto* l : r->links)
+      printf(" %s", lname(l));
+    printf("\n");
+  }
+  for (auto* c : z->get_children())
+    dump_bypass(c);
+}
 static void one_pair(sg4::Host* a, sg4::Host* b)
 {
   try {
@@ -256,6 +284,8 @@ int main(int argc, char** argv)
         dump_zone(e.get_netzone_root()->get_impl(), false);
       } else if (c == "dumplocal") {
         dump_zone(e.get_netzone_root()->get_impl(), true);
+      } else if (c == "dumpbypass") {
+        dump_bypass(e.get_netzone_root()->get_impl());
       } else if (c == "pair") {
         one_pair(e.host_by_name(t[1]), e.host_by_name(t[2]));
       } else {
